@@ -167,6 +167,7 @@ func (d *PathDecoder) decodeReferenceTargetsForBody(body hcl.Body, parentBlock *
 		}
 
 		var bodyRef reference.Target
+		bodyRefIdx := -1
 
 		if bSchema.Address.BodyAsData {
 			bodyRef = reference.Target{
@@ -199,6 +200,7 @@ func (d *PathDecoder) decodeReferenceTargetsForBody(body hcl.Body, parentBlock *
 			sort.Sort(bodyRef.NestedTargets)
 
 			refs = append(refs, bodyRef)
+			bodyRefIdx = len(refs) - 1
 		}
 
 		if bSchema.Address.DependentBodyAsData {
@@ -238,6 +240,11 @@ func (d *PathDecoder) decodeReferenceTargetsForBody(body hcl.Body, parentBlock *
 
 				if !bSchema.Address.BodyAsData {
 					refs = append(refs, bodyRef)
+				} else if bodyRefIdx >= 0 {
+					// the target of the static body is already collected:
+					// replace it by the one that covers the dependent body too
+					sort.Sort(bodyRef.NestedTargets)
+					refs[bodyRefIdx] = bodyRef
 				}
 			}
 		}
